@@ -429,7 +429,9 @@ class Fn:
         return self._defs
 
     def single_def(self, local):
-        ds = [x for x in self.defs().get(local, []) if not self.is_cleanup(x[0])]
+        # a store through the pointer held by the local (`(*p).f = v`) does not redefine the local
+        ds = [x for x in self.defs().get(local, []) if not self.is_cleanup(x[0])
+              and not (x[2] in ("assign", "setdiscr") and x[3]["p"][1] and x[3]["p"][1][0][0] == "d")]
         if len(ds) == 1:
             return ds[0]
         return None
@@ -628,6 +630,17 @@ class Program:
         self._children = None
         self._callers = None
         self._trait_impls = None
+        self._shims = None
+
+    def shims(self):
+        """name -> Fn of engine/shims (reference bodies of std combinators; never part of `fns`)"""
+        if self._shims is None:
+            self._shims = {}
+            for r in build.shim_records():
+                if r.get("k") == "fn" and r.get("kind") == "Fn":
+                    r = dict(r, file="(verif)/engine/shims/" + r.get("file", "src/lib.rs"))
+                    self._shims[r["name"]] = Fn(r)
+        return self._shims
 
     def fn(self, key):
         f = self.fns.get(key)
@@ -725,20 +738,28 @@ class Program:
             cache[k] = _inline.inline(self, fn, depth, accept)
         return cache[k]
 
-    def flattened(self, fn, anchor_rx, depth=2):
+    def flattened(self, fn, anchor_rx, depth=2, combinators=False):
         """fn with (1) local helpers containing the anchor calls spliced in and (2) calls of closure literals handed to
         such helpers resolved -- the view rules use when the statements they read may have been moved into a
-        (higher-order) helper; cached"""
+        (higher-order) helper; with combinators=True also (3) std's closure-taking combinators (Option::map,
+        Iterator::find_map, ..) replaced by the reference bodies of engine/shims, so that the closure they are handed
+        becomes an ordinary call that (2) resolves; cached"""
         from . import inline as _inline
         cache = self.__dict__.setdefault("_flat", {})
-        k = (fn.key, anchor_rx, depth)
+        k = (fn.key, anchor_rx, depth, combinators)
         if k not in cache:
-            g = _inline.inline(self, fn, depth, _inline.containing(self, anchor_rx))
-            g = _inline.inline_closure_calls(self, g)
-            if g is not fn:
-                # helpers called from the spliced closure bodies
-                g2 = _inline.inline(self, g, 1, _inline.containing(self, anchor_rx))
-                g = g2
+            acc = _inline.containing(self, anchor_rx, closures=combinators)
+            g = _inline.inline(self, fn, depth, acc)
+            for _ in range(3 if combinators else 1):
+                before = g
+                if combinators:
+                    g = _inline.expand_combinators(self, g)
+                g = _inline.inline_closure_calls(self, g)
+                if g is not fn:
+                    # helpers called from the spliced closure bodies
+                    g = _inline.inline(self, g, 1, acc)
+                if g is before:
+                    break
             cache[k] = g
         return cache[k]
 
